@@ -50,6 +50,7 @@ class Check:
     def judge(self, case, ctr, mtr):
         """-> (kind, msg, signature): kind in ok | prop | corr"""
         cid, header, ops = case
+        ops = [o for o in ops if not o.startswith(('hash ', 'param '))]
         if ctr is None: return ('corr', 'implementation produced no trace', None)
         if mtr is None: return ('corr', 'model produced no trace', None)
         mons = self.monitors(case, ctr)
@@ -195,7 +196,7 @@ class Check:
         # every known finding's own replay is run explicitly (its corpus file is part of self.corpus)
         for kf in known:
             if kf['id'] in known_hits:
-                print('KNOWN-FINDING: property=%s %s' % (self.pid, kf['text']))
+                print('KNOWN-FINDING: %s' % kf['text'])
 
         if prop_bad:
             case, k = prop_bad[0]
